@@ -53,6 +53,8 @@ func runC02(rc *RunCtx) {
 			n := nonces[r.Intn(len(nonces))] + uint64(h*1000+i)*uint64(r.Intn(2))
 			var in *InMsg
 			if i%3 == 0 {
+				// messages not addressed to the module may come from any source domain, the local one and the largest included
+				d = []uint32{0, 1, 4, 0xffffffff, 5, 4}[(i/3)%6]
 				in = &InMsg{Version: 0, Src: d, Dst: 4, Nonce: n, Sender: Structured32(1), Recipient: Structured32(2), Caller: make([]byte, 32), Body: []byte{1, 2, 3}}
 			} else {
 				in = StdInbound(n, i%NAccounts, big.NewInt(int64(1+i)))
